@@ -734,7 +734,11 @@ def c14_nograd(res, rng):
             except Exception:
                 continue
             used += 1
-            for mode in ("rev", "fwd", "rev.rev", "fwd.rev"):
+            modes_ = ["rev", "fwd", "rev.rev", "fwd.rev"]
+            if len(args) >= 2 and isinstance(args[1], (float, onp.ndarray)) and onp.asarray(args[1]).dtype.kind == "f":
+                # the first argument is the inner level's variable, the second one a value traced by the ENCLOSING level
+                modes_ += ["rev.rev:outer_arg", "fwd.rev:outer_arg", "rev.fwd:outer_arg"]
+            for mode in modes_:
                 res["evaluations"] += 1
                 sig = {"engine": "values", "family": "nograd", "fn": name, "template": tname, "mode": mode}
                 case = {"kind": "nograd", "fn": name, "template": tname, "mode": mode}
@@ -747,10 +751,26 @@ def c14_nograd(res, rng):
                     seen["isbox"] = bool(find_boxes(r)) or isbox(r)
                     return anp.sum(x) * 0.0 + 1.0
 
+                def outer_body(t):
+                    def body2(x):
+                        r = fn(x, args[1] + 0.0 * t, *args[2:], **kw)
+                        seen["r"] = r
+                        seen["isbox"] = bool(find_boxes(r)) or isbox(r)
+                        return anp.sum(x) * 0.0 + 1.0 + 0.0 * t
+
+                    if mode.startswith("rev.fwd"):
+                        return make_jvp(body2, args[0])(common.rand_like(rng, args[0]))[1]
+                    return make_vjp(body2, args[0])[1]
+
                 try:
                     with warnings.catch_warnings():
                         warnings.simplefilter("ignore")
-                        if mode == "rev":
+                        if mode.endswith(":outer_arg"):
+                            if mode.startswith("fwd."):
+                                make_jvp(outer_body, 0.3)(1.0)
+                            else:
+                                make_vjp(outer_body, 0.3)
+                        elif mode == "rev":
                             make_vjp(body, args[0])
                         elif mode == "fwd":
                             make_jvp(body, args[0])(common.rand_like(rng, args[0]))
@@ -814,6 +834,34 @@ def c14_compositions(res, rng):
     qs["astype_int"] = lambda t: t.astype(int)
     qs["astype_bool"] = lambda t: t.astype(bool)
     qs["astype_int32_kw"] = lambda t: t.astype(dtype=onp.int32)
+    # a traced value compared with ITSELF (the not-NaN mask idiom), at a point that has NaN entries
+    x_nan = onp.array([0.37, onp.nan, 2.43, onp.nan, -2.6])
+    SELF = {"eq_self": lambda t: t == t, "ne_self": lambda t: t != t, "ge_self": lambda t: t >= t, "lt_self": lambda t: t < t, "equal_fn_self": lambda t: anp.equal(t, t), "isnan_not": lambda t: anp.logical_not(anp.isnan(t))}
+    for name, q in SELF.items():
+        for mode in ("rev", "fwd"):
+            res["evaluations"] += 1
+            sig = {"engine": "values", "family": "composition", "q": name, "mode": mode}
+            case = {"kind": "composition", "q": name, "mode": mode}
+            try:
+                with warnings.catch_warnings():
+                    warnings.simplefilter("ignore")
+                    ref = q(x_nan)
+                    cap = []
+                    body = lambda t: (cap.append(q(t)), anp.sum(anp.where(q(t), t, 0.0) * 1.0))[1]
+                    if mode == "rev":
+                        got = grad(body)(x_nan)
+                    else:
+                        got = onp.array([make_jvp(body, x_nan)(e)[1] for e in onp.eye(5)])
+            except Exception as e:
+                _viol(res, sig, "exception:" + type(e).__name__, case, traceback.format_exc()[-300:])
+                continue
+            if find_boxes(cap[0]) or not same_value(cap[0], ref):
+                _viol(res, sig, "primal_mismatch", case, "comparison of a traced value with itself gives %s, NumPy %s" % (describe(cap[0]), describe(ref)))
+                continue
+            if not onp.array_equal(onp.asarray(got, dtype=float), onp.asarray(ref, dtype=float)):
+                _viol(res, sig, "wrong_value", case, "d/dx sum(where(%s, x, 0)): got %s expected the mask %s" % (name, describe(got), describe(ref)))
+                continue
+            _ok(res, sig)
     for name, q in qs.items():
         for mode in ("rev", "fwd"):
             if mode == "fwd" and name in REV_ONLY:
